@@ -1,9 +1,5 @@
 #!/bin/bash
-# tools/runkills.sh <kills-file> [parallelism]: runs every sanity mutation of the file.
-F="$1"; PAR="${2:-4}"
-grep -v '^#' "$F" | grep -v '^\s*$' | while IFS='|' read -r id props cmd; do
-  id=$(echo $id); 
-  echo "$id|$props|$cmd"
-done > /tmp/kills.$$.lst
-cat /tmp/kills.$$.lst | xargs -P "$PAR" -d '\n' -I{} bash -c 'L="{}"; id="${L%%|*}"; rest="${L#*|}"; props="${rest%%|*}"; cmd="${rest#*|}"; out=$(SHOWDIFF=0 /verif/tools/mutate.sh "$cmd" -- $props 2>&1 | grep -E "^(DETECTED|MISSED|INCONCLUSIVE|MUTA|PATCH)"); echo "== $id: $(echo $out)"'
-rm -f /tmp/kills.$$.lst
+# tools/runkills.sh <glob-prefix> [parallelism]: runs the sanity mutations tools/kills/<prefix>*.sh
+# (each file: first line "# props: C01 C02", rest = shell commands run inside a scratch worktree).
+PFX="$1"; PAR="${2:-4}"
+ls /verif/tools/kills/${PFX}*.sh | xargs -P "$PAR" -I{} bash -c 'f="{}"; id=$(basename "$f" .sh); props=$(head -1 "$f" | sed "s/^# props: //"); out=$(SHOWDIFF=0 /verif/tools/mutate.sh "bash $f" -- $props 2>&1 | grep -E "^(DETECTED|MISSED|INCONCLUSIVE|MUTA|PATCH)"); echo "== $id: $(echo $out)"'
